@@ -221,7 +221,7 @@ impl<S: ClientStream> AgentClient<S> {
         let mut keys = Vec::new();
         let resp = self.stream.request(&buf)?;
 
-        if resp[0] == msg::IDENTITIES_ANSWER {
+        if resp.first() == Some(&msg::IDENTITIES_ANSWER) {
             let mut r = resp.reader(1);
             let n = r.read_u32()?;
 
@@ -288,10 +288,7 @@ impl<S: ClientStream> AgentClient<S> {
         let _t = resp.read_string()?;
         let sig = resp.read_string()?;
 
-        let mut out = [0; 64];
-        out.copy_from_slice(sig);
-
-        Ok(out)
+        sig.try_into().map_err(|_| Error::AgentProtocolError)
     }
 
     /// Ask the agent to remove a key from its memory.
